@@ -25,7 +25,8 @@ BUDGET = {'quick': 40, 'thorough': 600}
 
 ENDS = ['exit_setup', 'exit_process', 'exit_shutdown', 'exit_exc_process', 'stop_evt', 'raise_init', 'raise_setup', 'raise_process', 'raise_shutdown', 'exit_after', 'exit_init', 'stop_evt_inside',
         'prop_clean', 'prop_error',
-        'interrupt_setup', 'interrupt_process', 'interrupt_shutdown']     # the last two: an upstream neighbour ends (cleanly / by an exception) and this filter obeys the propagated exit
+        'interrupt_setup', 'interrupt_process', 'interrupt_shutdown',
+        'raise_fini', 'exit_then_raise_fini']     # the run ends cleanly (stop event / exit()), then tearing down communication fails     # the last two: an upstream neighbour ends (cleanly / by an exception) and this filter obeys the propagated exit
 _S = {}
 
 
@@ -106,9 +107,18 @@ def run_case(case):
                     raise Boom('process')
                 if end == 'interrupt_process':
                     raise KeyboardInterrupt()
-                if end in ('exit_shutdown', 'raise_shutdown', 'stop_evt_inside', 'interrupt_shutdown'):
+                if end == 'exit_then_raise_fini':
+                    self.exit('done, teardown will fail')
+                if end in ('exit_shutdown', 'raise_shutdown', 'stop_evt_inside', 'interrupt_shutdown', 'raise_fini'):
                     self.stop_evt.set()
             return None
+
+        def fini(self):
+            try:
+                super().fini()
+            finally:
+                if end in ('raise_fini', 'exit_then_raise_fini'):
+                    raise Boom('fini')
 
         def shutdown(self):
             if end == 'exit_shutdown':
@@ -223,7 +233,7 @@ def run_case(case):
     classes = [f'end {end}', f'emit cost {case["emit_cost_ms"]}', f'interval {case["interval_ms"]}'] + (['run() called from inside an exception handler'] if case.get('caller') == 'in_handler' else []) + (['second run in the same process'] if case.get('prior') else []) + ([f'config value of type {case["cfg_val"]}'] if case.get('cfg_val') else []) + (['config with a mapping whose key is not an identifier'] if case.get('cfg_key') is not None and not (case['cfg_key'].isidentifier() and case['cfg_key'] not in ('class', 'type')) else [])
     if 'how' not in res:
         return bad(f'run() did not end within the horizon ({end}); events {seq}', f'run-not-ended:{end}', classes)
-    if end in ('raise_init', 'raise_setup', 'raise_process', 'raise_shutdown', 'exit_exc_process'):
+    if end in ('raise_init', 'raise_setup', 'raise_process', 'raise_shutdown', 'exit_exc_process', 'raise_fini', 'exit_then_raise_fini'):
         if res['how'] != 'raised' or res.get('type') != 'Boom':
             return bad(f'harness expectation: {end} should make run() raise Boom, got {res}', f'unexpected-run-result:{end}', classes)
     elif end.startswith('interrupt_'):
